@@ -237,6 +237,26 @@ theorem C14_single_segment_cut_exact {V : Type} (p : TermsP) (t : TermsI V) (hsz
       = (sortBuckets p.order t.map.entries).take p.size :=
   termsCut_shown_eq p t hsz
 
+/-- the same bounds for EVERY merge schedule (any order, any grouping) of the truncated segment
+fruits, not only for the collector's own fold -/
+theorem C14_terms_error_bound_any_schedule (p : TermsP) (sub : Req) (parts : List (List Doc))
+    (t : MTree (TermsI (Inter M sub)))
+    (hleaves : t.leaves.Perm (parts.map (collectSeg (.terms p sub)))) (U : List Int)
+    (hU : U.Nodup) (hcov : ∀ part ∈ parts, ∀ d ∈ part, ∀ k ∈ termKeys p d, k ∈ U) :
+    let H : TermsI (Inter M sub) := t.eval (merge (.terms p sub)) (empty (.terms p sub))
+    let true_ := fun k => (parts.flatten.filter (fun d => (termKeys p d).contains k)).length
+    (∀ k, cnt H.map k ≤ true_ k)
+      ∧ (p.order = .countDesc → ∀ k, true_ k ≤ cnt H.map k + H.err)
+      ∧ sumOver U (cnt H.map) + H.other = sumOver U true_ := by
+  intro H true_
+  have e : H = mergeFruits (.terms p sub) (parts.map (collectSeg (.terms p sub))) := by
+    show t.eval (merge (.terms p sub)) (empty (.terms p sub)) = _
+    rw [MTree.eval_eq_fold (merge (.terms p sub)) (empty (.terms p sub)) (merge_assoc _) (merge_comm _) (empty_merge _),
+      foldl_op_perm (merge (.terms p sub)) (empty (.terms p sub)) (merge_assoc _) (merge_comm _) (empty_merge _) hleaves,
+      C14_mergeFruits_eq_fold]
+  rw [e]
+  exact C14_terms_error_bound p sub parts U hU hcov
+
 /-- the final stage keeps the books as well: what the `size` cut removes goes to
 `sum_other_doc_count` (buckets below `min_doc_count` are dropped, as in the code) -/
 theorem C14_terms_final_conservation {V : Type} (p : TermsP) (all : List (Int × Nat × V)) (other err : Nat) :
@@ -361,6 +381,28 @@ theorem C14_histogram_bucket (interval offset v p : Int) (hI : 0 < interval) :
     have a2 : (v - offset) / interval < p + 1 := (Int.ediv_lt_iff_lt_mul hI).2 (by omega)
     omega
 
+/-- the bucket position does not depend on the unit: scaling interval, offset and value by the
+same positive factor (milliseconds → nanoseconds in `normalize_date_time`, which the
+date_histogram and a histogram on a date column apply) leaves `⌊(v − offset)/interval⌋` unchanged -/
+theorem C14_histogram_unit_invariant (interval offset v s : Int) (hs : 0 < s) (_hI : 0 < interval) :
+    histPos (interval * s) (offset * s) (v * s) = histPos interval offset v := by
+  unfold histPos
+  have : v * s - offset * s = (v - offset) * s := by rw [Int.sub_mul]
+  rw [this]
+  exact Int.mul_ediv_mul_of_pos_left (v - offset) interval hs
+
+/-- gap filling reports exactly the positions between the smallest and the largest one needed:
+with neither extended nor hard bounds, `p` is reported iff it lies inside the hull of the
+non-empty buckets -/
+theorem C14_histogram_gap_filling (p : HistP) (hull : Option (Int × Int)) (hext : p.ext = Option.none)
+    (hhard : p.hard = Option.none) (k : Int) :
+    k ∈ histSpan p hull ↔ inHull hull k := by
+  unfold histSpan
+  simp only [hext, hhard]
+  cases hull with
+  | none => simp [inHull]
+  | some q => obtain ⟨lo, hi⟩ := q; simp [inHull, mem_intSpan]
+
 /-- every value lands in exactly one range bucket: for sorted cut points `rangeIdx` is the
 unique index `i` such that the cuts before `i` are `≤ v` and those from `i` on are `> v`, i.e.
 `cuts[i-1] ≤ v < cuts[i]` with open ends -/
@@ -433,6 +475,7 @@ example : (evalAgg Int exReq (exDocs1 ++ exDocs2)).1.1.map (fun b => (b.1, b.2.1
   decide +kernel
 example : (finalize (M := Int) exReq (merge exReq (collectSeg exReq exDocs1) (collectSeg exReq exDocs2))).2.map
     (fun b => (b.1, b.2.1)) = [(-1, 1), (0, 2), (1, 0), (2, 1)] := by decide +kernel
+example : histPos (60000 * 1000000) 0 (1600000000123 * 1000000) = histPos 60000 0 1600000000123 := by decide
 example : histPos 10 0 (-5) = -1 ∧ histPos 10 3 13 = 1 ∧ histPos 10 3 12 = 0 := by decide
 example : rangeIdx [0, 10, 20] 10 = 2 ∧ rangeIdx [0, 10, 20] (-1) = 0 ∧ rangeIdx [0, 10, 20] 25 = 3 := by
   decide
